@@ -33,6 +33,8 @@
 #include <soundswallower/mllr.h>
 #include <soundswallower/search_module.h>
 #include <soundswallower/state_align_search.h>
+/* counting wrappers for every exported function of the API surface (generated from the current headers) */
+#include "gen_c09_api.h"
 
 #ifdef VF_PASSTHROUGH_POOL
 #include <soundswallower/listelem_alloc.h>
@@ -107,6 +109,8 @@ static logmath_t *LM[NSLOT];
 static fe_t *FE[NSLOT];
 static feat_t *FT[NSLOT];
 static mllr_t *ML[NSLOT];
+static const char *BOR[NSLOT]; /* borrowed strings (decoder_hyp, decoder_result_json, decoder_get_cmn, hyp_iter_hyp) */
+static char *STR[NSLOT];       /* strings owned by the history (decoder_lookup_word) */
 static const char *REPO = "/repo";
 static const char *SCRATCH = "/tmp";
 static char pathbuf[5][1024];
@@ -181,6 +185,11 @@ static const char *word_text(const char *k)
     if (!strcmp(k, "empty")) return "";
     if (!strcmp(k, "paren")) return "(";
     if (!strcmp(k, "long")) return "aaaaaaaaaaaaaaaaaaaaaaaaaaaaaaaaaaaaaaaaaaaaaaaaaaaaaaaaaaaaaaaaaaaaaaaaaaaaaaaaaaaaaaaaaaaaaaaaaaaaaaaaaaaaaaaaaaaaaaaaaaaaaaaaaaaaaaaaaaaaaaaaaaaaaaaa";
+    /* spellings over the whole byte range the dictionary accepts: DEL, control bytes, quote and backslash, bytes >= 0x80 */
+    if (!strcmp(k, "weird0")) return "w\x7f\x7f" "d";
+    if (!strcmp(k, "weird1")) return "q\"u\\o";
+    if (!strcmp(k, "weird2")) return "c\x01\x1f\x7f";
+    if (!strcmp(k, "weird3")) return "h\xc3\xa9\xff\x80";
     return k; /* new0, new1, ... literal new words */
 }
 
@@ -206,6 +215,7 @@ static const char *aligntext(const char *k)
     if (!strcmp(k, "blank")) return "   ";
     if (!strcmp(k, "oov")) return "go zzyzxqq";
     if (!strcmp(k, "rep")) return "go go go go go go go go";
+    if (!strcmp(k, "weird")) return "w\x7f\x7f" "d q\"u\\o c\x01\x1f\x7f h\xc3\xa9\xff\x80 w\x7f\x7f" "d";
     return "hello";
 }
 
@@ -255,10 +265,11 @@ static void inst_state(inst_t *x)
 {
     if (x->dec) {
         int st = x->dec->acmod ? (int)x->dec->acmod->state : -1;
-        printf("D=%d u=%c s=%d a=%d j=%d g=%d", x->dec->refcount,
-               st == ACMOD_IDLE ? 'i' : (st == ACMOD_ENDED ? 'e' : (st < 0 ? '?' : 's')),
+        printf("D=%d u=%c s=%d a=%d j=%d g=%d fr=%d", x->dec->refcount,
+               st == ACMOD_IDLE ? 'i' : (st == ACMOD_ENDED ? 'e' : (st < 0 ? 'c' : (st == ACMOD_PROCESSING ? 'p' : 's'))),
                x->dec->search != NULL, x->dec->align != NULL, x->dec->json_result != NULL,
-               x->dec->search && x->dec->search->dag != NULL);
+               x->dec->search && x->dec->search->dag != NULL,
+               x->dec->acmod ? (int)x->dec->acmod->output_frame + 1 : 0);
     } else
         printf("D=0");
     printf(" it=%d,%d,%d lr=%d ar=%d ln=%d,%d ub=", count((void **)x->seg), count((void **)x->hyp), count((void **)x->ali),
@@ -281,8 +292,16 @@ static void state(void)
     inst_state(&I[0]);
     printf(" || ");
     inst_state(&I[1]);
-    printf(" || cf=%d lm=%d fe=%d ft=%d ml=%d\n", count((void **)CFG), count((void **)LM), count((void **)FE),
-           count((void **)FT), count((void **)ML));
+    printf(" || cf=%d lm=%d fe=%d ft=%d ml=%d so=%d\n", count((void **)CFG), count((void **)LM), count((void **)FE),
+           count((void **)FT), count((void **)ML), count((void **)STR));
+    /* the exported functions this call reached */
+    {
+        int f;
+        fputs("*", stdout);
+        for (f = 0; f < VF_API_N; f++)
+            if (vf_api_seen[f]) { printf(" %s", vf_api_name[f]); vf_api_seen[f] = 0; }
+        fputs("\n", stdout);
+    }
     fflush(stdout);
 }
 
@@ -300,6 +319,7 @@ static void touch_ali(alignment_iter_t *it)
     const char *w = alignment_iter_name(it);
     volatile size_t n = w ? strlen(w) : 0; (void)n;
     alignment_iter_seg(it, &st, &du); alignment_iter_seg(it, NULL, NULL);
+    { alignment_entry_t *e = alignment_iter_get(it); volatile int q = e ? e->start + e->duration + e->parent : 0; (void)q; }
 }
 static void touch_link(lattice_t *dag, latlink_t *lk)
 {
@@ -351,6 +371,7 @@ static void use_config(config_t *c, const char *key)
     volatile size_t l;
     (void)config_typeof(c, key); (void)config_int(c, key); (void)config_float(c, key);
     (void)config_str(c, key); (void)config_bool(c, key); (void)config_get(c, key);
+    { config_val_t *cv = config_access(c, key); volatile int q = cv ? cv->type : 0; (void)q; }
     js = config_serialize_json(c); l = js ? strlen(js) : 0; (void)l;
 }
 
@@ -369,6 +390,16 @@ static const void *config_call(config_t *c, char **w, int n)
     else if (!strcmp(w[0], "bool") && n >= 3) r = config_set_bool(c, w[1], atoi(w[2]));
     else if (!strcmp(w[0], "unset") && n >= 2) r = config_unset(c, w[1]);
     else if (!strcmp(w[0], "setnull") && n >= 2) r = config_set(c, w[1], NULL, 0);
+    else if (!strcmp(w[0], "setany") && n >= 4) {
+        /* setany <key> str|int|bool|float <value>: config_set(c, key, &val, type) */
+        anytype_t v; memset(&v, 0, sizeof(v));
+        if (!strcmp(w[2], "str")) {
+            char *cp = !strcmp(w[3], "NULL") ? NULL : ckd_salloc(!strcmp(w[3], "EMPTY") ? "" : w[3]);
+            v.ptr = cp; r = config_set(c, w[1], &v, ARG_STRING); ckd_free(cp);
+        } else if (!strcmp(w[2], "int")) { v.i = atol(w[3]); r = config_set(c, w[1], &v, ARG_INTEGER); }
+        else if (!strcmp(w[2], "bool")) { v.i = atol(w[3]); r = config_set(c, w[1], &v, ARG_BOOLEAN); }
+        else { v.fl = atof(w[3]); r = config_set(c, w[1], &v, ARG_FLOATING); }
+    }
     else if (!strcmp(w[0], "same") && n >= 2) {
         /* set the parameter to the value it has, through the setter of its own type */
         int t = config_typeof(c, w[1]);
@@ -379,6 +410,7 @@ static const void *config_call(config_t *c, char **w, int n)
     } else if (!strcmp(w[0], "get") && n >= 2) {
         (void)config_typeof(c, w[1]); (void)config_int(c, w[1]); (void)config_float(c, w[1]);
         (void)config_str(c, w[1]); (void)config_bool(c, w[1]);
+        { config_val_t *cv = config_access(c, w[1]); volatile int q = cv ? cv->type : 0; (void)q; }
         r = config_get(c, w[1]);
     } else if (!strcmp(w[0], "typeof") && n >= 2) {
         r = config_typeof(c, w[1]) ? (const void *)c : NULL;
@@ -460,7 +492,7 @@ int main(int argc, char **argv)
             int r = decoder_free(NULL);
             decoder_t *p = decoder_retain(NULL);
             lattice_free(NULL); lattice_retain(NULL); alignment_free(NULL); alignment_retain(NULL);
-            alignment_iter_next(NULL); alignment_iter_children(NULL); config_free(NULL);
+            alignment_iter_next(NULL); alignment_iter_children(NULL); config_free(NULL); config_retain(NULL);
             mllr_free(NULL); mllr_retain(NULL); alignment_iter_name(NULL); alignment_iter_seg(NULL, NULL, NULL);
             alignment_iter_goto(NULL, 0); ps_latnode_iter_free(NULL); ps_latlink_iter_free(NULL);
             RET(r == 0 && p == NULL ? "ok" : "err");
@@ -849,6 +881,83 @@ int main(int argc, char **argv)
             RET(r == 0 ? "ok" : "err");
         } else if (!strcmp(w[0], "aligntext") && n >= 2) {
             int r; NEED_D; r = decoder_set_align_text(D, aligntext(w[1])); RET(r == 0 ? "ok" : "err");
+        } else if (!strcmp(w[0], "create") && n >= 2) {
+            /* create <grammar kind | null> [args]: decoder_create - allocated and configured, not initialised */
+            config_t *c; decoder_t *d;
+            if (D) { RET("skip"); continue; }
+            c = !strcmp(w[1], "null") ? NULL : make_config(w[1], n - 2, w + 2);
+            d = decoder_create(c);
+            if (d) { D = d; Drefs = 1; RET("ptr"); } else RET("null");
+        } else if (!strcmp(w[0], "hyphold") && n >= 2) {
+            /* hyphold <borrow slot>: decoder_hyp, the pointer is kept and read later */
+            int k = atoi(w[1]); int32 sc = 0;
+            NEED_D;
+            if (!SLOT_OK(k)) { RET("skip"); continue; }
+            BOR[k] = decoder_hyp(D, &sc);
+            RET(BOR[k] ? "ptr" : "null");
+        } else if (!strcmp(w[0], "jsonhold") && n >= 3) {
+            int k = atoi(w[1]), ru;
+            NEED_D;
+            if (!SLOT_OK(k)) { RET("skip"); continue; }
+            ru = al_reuse();
+            BOR[k] = decoder_result_json(D, 0.0, atoi(w[2]));
+            RET(BOR[k] ? "ptr ru=%d" : "null ru=%d", ru);
+        } else if (!strcmp(w[0], "cmnhold") && n >= 2) {
+            int k = atoi(w[1]);
+            NEED_D;
+            if (!SLOT_OK(k)) { RET("skip"); continue; }
+            BOR[k] = decoder_get_cmn(D, 0);
+            RET(BOR[k] ? "ptr" : "null");
+        } else if (!strcmp(w[0], "iterhold") && n >= 3) {
+            /* iterhold <borrow slot> <hyp iterator slot>: hyp_iter_hyp, the pointer is kept */
+            int k = atoi(w[1]), j = atoi(w[2]); int32 sc;
+            if (!SLOT_OK(k) || !SLOT_OK(j) || !HYP[j]) { RET("skip"); continue; }
+            BOR[k] = hyp_iter_hyp(HYP[j], &sc);
+            RET(BOR[k] ? "ptr" : "null");
+        } else if (!strcmp(w[0], "buse") && n >= 2) {
+            /* read a borrowed string from its first to its last byte */
+            int k = atoi(w[1]); volatile size_t l;
+            if (!SLOT_OK(k) || !BOR[k]) { RET("skip"); continue; }
+            l = strlen(BOR[k]); (void)l;
+            RET("void");
+        } else if (!strcmp(w[0], "lookuphold") && n >= 3) {
+            /* lookuphold <string slot> <word>: decoder_lookup_word, the caller owns the result */
+            int k = atoi(w[1]);
+            NEED_D;
+            if (!SLOT_OK(k) || STR[k]) { RET("skip"); continue; }
+            STR[k] = decoder_lookup_word(D, word_text(w[2]));
+            RET(STR[k] ? "ptr" : "null");
+        } else if (!strcmp(w[0], "struse") && n >= 2) {
+            int k = atoi(w[1]); volatile size_t l;
+            if (!SLOT_OK(k) || !STR[k]) { RET("skip"); continue; }
+            l = strlen(STR[k]); STR[k][0] = STR[k][0]; (void)l;
+            RET("void");
+        } else if (!strcmp(w[0], "strfree") && n >= 2) {
+            int k = atoi(w[1]);
+            if (!SLOT_OK(k) || !STR[k]) { RET("skip"); continue; }
+            ckd_free(STR[k]); STR[k] = NULL; RET("void");
+        } else if (!strcmp(w[0], "alprop") && n >= 2) {
+            int k = atoi(w[1]), r;
+            if (!SLOT_OK(k) || !ALN[k]) { RET("skip"); continue; }
+            r = alignment_propagate(ALN[k]);
+            RET(r == 0 ? "ok" : "err");
+        } else if ((!strcmp(w[0], "cfgvalidate") || !strcmp(w[0], "cfgexpand") || !strcmp(w[0], "cfglog")) && n >= 2) {
+            /* <op> -1 | <held slot>: config_validate / config_expand / config_log_help + config_log_values */
+            int k = atoi(w[1]); config_t *c;
+            if (k < 0) { NEED_D; c = decoder_config(D); } else c = SLOT_OK(k) ? CFG[k] : NULL;
+            if (!c) { RET("skip"); continue; }
+            if (!strcmp(w[0], "cfgvalidate")) { int r = config_validate(c); RET(r == 0 ? "ok" : "err"); }
+            else if (!strcmp(w[0], "cfgexpand")) { config_expand(c); RET("void"); }
+            else { config_log_help(c); config_log_values(c); RET("void"); }
+        } else if (!strcmp(w[0], "cfgparsenew") && n >= 3) {
+            /* cfgparsenew <slot> ok|unknown|empty|trunc|null: config_parse_json(NULL, text) creates a configuration */
+            int k = atoi(w[1]);
+            const char *js = !strcmp(w[2], "ok") ? "{\"beam\": 1e-40, \"loglevel\": \"FATAL\"}"
+                : (!strcmp(w[2], "unknown") ? "{\"nosuchkey\": 3}" : (!strcmp(w[2], "empty") ? ""
+                : (!strcmp(w[2], "null") ? NULL : "{\"beam\": ")));
+            if (!SLOT_OK(k) || CFG[k]) { RET("skip"); continue; }
+            CFG[k] = config_parse_json(NULL, js);
+            RET(CFG[k] ? "ptr" : "null");
         } else if (!strcmp(w[0], "times")) {
             double a, b, c; NEED_D;
             decoder_utt_time(D, &a, &b, &c); decoder_all_time(D, &a, &b, &c);
@@ -887,6 +996,7 @@ int main(int argc, char **argv)
         if (FE[i]) { sprintf(buf, "subfree fe %d", i); do_line(buf); }
         if (FT[i]) { sprintf(buf, "subfree feat %d", i); do_line(buf); }
         if (ML[i]) { sprintf(buf, "mllrfree %d", i); do_line(buf); }
+        if (STR[i]) { sprintf(buf, "strfree %d", i); do_line(buf); }
     }
     free(goraw);
     printf("> exit\n< void"); state();
@@ -912,6 +1022,7 @@ static void do_line(char *line)
     else if (!strcmp(w[0], "latfree")) { lattice_free(LAT[k]); LAT[k] = NULL; printf("< void"); }
     else if (!strcmp(w[0], "alfree")) { alignment_free(ALN[k]); ALN[k] = NULL; C->built[k] = 0; printf("< void"); }
     else if (!strcmp(w[0], "mllrfree")) { mllr_free(ML[k]); ML[k] = NULL; printf("< void"); }
+    else if (!strcmp(w[0], "strfree")) { ckd_free(STR[k]); STR[k] = NULL; printf("< void"); }
     else if (!strcmp(w[0], "subfree")) {
         if (!strcmp(w[1], "cfg")) { config_free(CFG[k]); CFG[k] = NULL; }
         else if (!strcmp(w[1], "lmath")) { logmath_free(LM[k]); LM[k] = NULL; }
